@@ -41,6 +41,7 @@ class World:
         self.p, self.warm = p, warm
         self.h = make_sketch(p, warm)
         self.ref = set()
+        self.first_order = []
         self.alpha = [f'v{i}' for i in range(warm + 2)] + ['']      # the empty string is a value like any other
         self.order_seen = order_seen
 
@@ -61,6 +62,8 @@ class World:
         ok2, r = safe(self.h.add, v)
         if not ok2:
             return [f'add raised {r}']
+        if v not in self.ref:
+            self.first_order.append(v)
         self.ref.add(v)
         ok3, n_after = safe(len, self.h)
         if not ok3:
@@ -72,13 +75,14 @@ class World:
             fails.append(f're-adding {v!r} changed len {n_before} -> {n_after}')
         if len(self.ref) <= self.warm and n_after != len(self.ref):
             fails.append(f'len={n_after} but exactly {len(self.ref)} distinct values (<= warm-up {self.warm}) were inserted')
-        # the state is a function of the SET of inserted values (warm-up set, then register-wise maxima): reaching the same set along
-        # another order, in another sketch object or after other sketches were used in this process must give the same state
-        key = frozenset(self.ref)
+        # in the exact range the state is a function of the SET of inserted values; beyond it the statement allows the order to matter, so
+        # there the key is the sequence of first insertions: the same own history must give the same state in every sketch object of this
+        # process, whatever other sketches did before (duplicates are no-ops by the rule above)
+        key = frozenset(self.ref) if len(self.ref) <= self.warm else tuple(self.first_order)
         prev = self.order_seen.setdefault(key, after)
         if prev != after:
             fails.append('state in the exact range depends on the insertion order' if len(self.ref) <= self.warm else
-                         f'state after {len(self.ref)} distinct values (> warm-up {self.warm}) differs from the state an earlier sketch of this process reached with the same set of values: it depends on the insertion order or on other sketch objects')
+                         f'state after inserting {len(self.ref)} distinct values (> warm-up {self.warm}) differs from the state an earlier sketch of this process reached with the same sequence of first insertions: it depends on other sketch objects')
         return fails
 
 
@@ -298,7 +302,7 @@ def eval_case(case):
             if any(ev not in w.alpha for ev in hist):
                 continue
             # prelude: what the search had done in this process before - a pair that reached the same value sets in another order, and a pair that used every value
-            for pre in (sorted(set(hist)), list(w.alpha)):
+            for pre in (list(dict.fromkeys(hist)), list(w.alpha)):
                 w0 = PairWorld(p, warm, seen)
                 for ev in pre:
                     w0.apply(ev)
@@ -314,7 +318,7 @@ def eval_case(case):
         if any(ev not in w.alpha for ev in hist):
             continue
         # prelude: what the search had done in this process before - a sketch that reached the same value set in another order, and one that used every value
-        for pre in (sorted(set(hist)), list(w.alpha)):
+        for pre in (list(dict.fromkeys(hist)), list(w.alpha)):
             w0 = World(p, warm, seen)
             for ev in pre:
                 w0.apply(ev)
